@@ -338,6 +338,13 @@ pub fn run_query_case(c: &QCase, check_t: bool, check_r: bool) -> Outcome {
             // lookup widens it to num_results; the mode only changes when an outcome is delivered)
             let stalled_before = m.is_stalled();
             let inflight_before = issued.iter().filter(|(i, t)| !outcome.contains_key(*i) && off < **t + peer_timeout).count();
+            if stalled_before && accepted_success.len() < par && !finished {
+                viol!(
+                    "T2/stalled-without-enough-answers",
+                    "the lookup is in its stalled mode (limit num_results = {}) although only {} answers were accepted so far; it takes {} answers in a row without progress to stall",
+                    k, accepted_success.len(), par
+                );
+            }
             let st = m.next(base + off);
             if m.is_stalled() {
                 ever_stalled = true;
